@@ -336,6 +336,9 @@ struct Ctx<'a> {
     viol: Vec<Violation>,
     rel: i32,
     truth_states: Vec<GameSt>,
+    /// per player: newest frame of that player the network has handed to the session being
+    /// stepped (i32::MAX for its own players); refreshed before each request list is executed
+    delivered: Vec<i32>,
 }
 
 impl<'a> Ctx<'a> {
@@ -535,6 +538,18 @@ impl<C: HCfg> Node<C> {
                             let t = cx.scn.truth(p, f);
                             match s {
                                 InputStatus::Confirmed => {
+                                    // "had actually been received": also against what the
+                                    // network really handed over, not only the session's books
+                                    if let Some(&dl) = cx.delivered.get(p) {
+                                        if f > dl {
+                                            cx.v(
+                                                "C03",
+                                                "confirmed-never-received",
+                                                ni,
+                                                format!("frame {f} player {p}: handed out as Confirmed, but the newest frame of that player the network has handed over is {dl}"),
+                                            );
+                                        }
+                                    }
                                     if *v != t || f > last {
                                         cx.v(
                                             "C03",
@@ -758,7 +773,7 @@ pub fn run<C: HCfg>(scn: &Scenario, devs: &Devs, opt: &RunOpt) -> ExecResult {
         for (f, t, l) in &scn.link_lat {
             n.link_latency.insert((*f, *t), *l);
         }
-        n.track_frames = scn.has_disconnects() || !scn.specs.is_empty();
+        n.track_frames = scn.has_disconnects() || !scn.specs.is_empty() || scn.checks & CK_C03 != 0;
         if opt.sniff {
             n.sniff = Some(Vec::new());
         }
@@ -771,6 +786,7 @@ pub fn run<C: HCfg>(scn: &Scenario, devs: &Devs, opt: &RunOpt) -> ExecResult {
             frame: 0,
             hash: INITIAL_HASH,
         }],
+        delivered: Vec::new(),
     };
     let mut nodes: Vec<Node<C>> = Vec::new();
     let mut build_err: Option<String> = None;
@@ -1193,6 +1209,22 @@ fn step_node<C: HCfg>(
             match r {
                 Ok(Ok(reqs)) => {
                     rec.res = R_OK;
+                    {
+                        let nb = net.borrow();
+                        let me = scn.peers[ni].addr;
+                        cx.delivered = (0..scn.num_players)
+                            .map(|p| {
+                                let o = scn.owner_of(p);
+                                if o == ni {
+                                    i32::MAX
+                                } else if nb.track_frames {
+                                    nb.delivered_frames.get(&(me, scn.peers[o].addr)).copied().unwrap_or(-1)
+                                } else {
+                                    i32::MAX
+                                }
+                            })
+                            .collect();
+                    }
                     let rr = catch_unwind(AssertUnwindSafe(|| {
                         n.exec(ni, reqs, cx, &mut rec);
                         n.post_call(ni, cx);
@@ -1274,7 +1306,9 @@ fn fill_rec<C: HCfg>(n: &mut Node<C>, rec: &mut CallRec) {
     let r = catch_unwind(AssertUnwindSafe(|| match &n.sess {
         Sess::P(s) => (
             s.current_frame(),
-            s.confirmed_frame(),
+            // from the connection-status accessor, not from confirmed_frame() (C03 cross-checks
+            // the API against it): judges use it to decide which frames are final
+            s.verif_connect_status().iter().filter(|c| !c.0).map(|c| c.1).min().unwrap_or_else(|| s.confirmed_frame()),
             s.frames_ahead(),
             s.current_state() == SessionState::Running,
         ),
